@@ -10,35 +10,22 @@ _FUNCS = ("mapped function enumerated from {x+1 (stateless), running sum (State)
 _OUT = ("map_ call-shape normalisation in front of wire_map (operator front door: keyword binding, __keys__ inference by union); several multiplexed "
         "dictionaries / explicit __keys__ (the union operator is not linkable); nested map inside map; mesh_; tsl_map_node (wire_map_tsl); REF-shaped "
         "child outputs; children that throw (C15) ; error-capturing map (map_node_with_error_capture); re-pointed (REF) sources; pause/resume")
+# configuration tuples {NKEYS, BULK, NCYC, EXTRA_OPS}; one binary, configuration and mapped function enumerated first
+_QUICK = "{3,0,3,0},{1,4,3,0},{2,0,3,1}"
+_THOROUGH = "{4,0,3,0},{2,7,3,0},{2,0,4,1}"
 reg("C10",
     name="C10_map", src=_SRC, anchor_files=_ANCH,
-    quick=dict(defs=dict(NKEYS=3, BULK=0, NCYC=3, EXTRA_OPS=0, NFUNC=6), symx=dict(shards=16, **{"max-wall": 900})),
-    thorough=dict(defs=dict(NKEYS=4, BULK=0, NCYC=3, EXTRA_OPS=0, NFUNC=6), symx=dict(shards=16, **{"max-wall": 3000, "shard-depth": 8})),
+    quick=dict(defs=dict(CONFIGS=_QUICK, NFUNC=6), symx=dict(shards=16, **{"max-wall": 900})),
+    thorough=dict(defs=dict(CONFIGS=_THOROUGH, NFUNC=6), symx=dict(shards=16, **{"max-wall": 3000, "shard-depth": 8})),
     reach=["end", "key_removed", "key_removed_and_readded_same_cycle", "key_with_state_removed_and_added_later", "key_added_after_a_removal", "three_valid",
-           "self_scheduled_wakeup", "removed_with_pending_wakeup", "broadcast_tick_alone", "live_key_without_valid_output"],
-    bounds="TSD<int,TS<int>> source over keys {0..NKEYS-1}, NCYC engine cycles; in every cycle every key independently does one of {nothing, set (add or "
-           "update), remove, erase+set in the same cycle} (all combinations enumerated); " + _FUNCS,
+           "five_valid", "self_scheduled_wakeup", "removed_with_pending_wakeup", "broadcast_tick_alone", "live_key_without_valid_output", "phantom_key"],
+    bounds="TSD<int,TS<int>> source; enumerated configurations {NKEYS, BULK, NCYC, EXTRA_OPS}: quick " + _QUICK + "; thorough " + _THOROUGH + ": in each of "
+           "NCYC cycles every one of NKEYS keys independently does {nothing, set (add/update), remove, erase+set in one cycle}, with EXTRA_OPS also {create "
+           "the key without a value, add+remove in one cycle}; a group of BULK further keys is added/updated/removed as a unit (many keys per cycle, "
+           "slot-store growth, slot reuse after erase); " + _FUNCS,
     outside=_OUT + "; more keys / cycles",
     assumptions=["erase+set of a live key within one engine cycle is netted by the source dictionary (documented slot protocol), so the map sees an update "
                  "of a key that never left and the instance continues; 'removed and added again' is exercised across cycles"],
-    )
-reg("C10",
-    name="C10_map_grow", src=_SRC, anchor_files=_ANCH,
-    quick=dict(defs=dict(NKEYS=1, BULK=4, NCYC=3, EXTRA_OPS=0, NFUNC=6), symx=dict(shards=16, **{"max-wall": 900})),
-    thorough=dict(defs=dict(NKEYS=2, BULK=7, NCYC=3, EXTRA_OPS=0, NFUNC=6), symx=dict(shards=16, **{"max-wall": 3000, "shard-depth": 8})),
-    reach=["end", "key_removed", "five_valid", "key_added_after_a_removal", "self_scheduled_wakeup"],
-    bounds="as C10_map with NKEYS individually scripted keys plus a group of BULK further keys added / updated / removed as a unit (many keys in one cycle, "
-           "slot-store growth, slot reuse after erase: 5 keys quick, 9 keys thorough); " + _FUNCS,
-    outside=_OUT,
-    )
-reg("C10",
-    name="C10_map_phantom", src=_SRC, anchor_files=_ANCH,
-    quick=dict(defs=dict(NKEYS=2, BULK=0, NCYC=3, EXTRA_OPS=1, NFUNC=6), symx=dict(shards=16, **{"max-wall": 900})),
-    thorough=dict(defs=dict(NKEYS=2, BULK=0, NCYC=4, EXTRA_OPS=1, NFUNC=6), symx=dict(shards=16, **{"max-wall": 3000, "shard-depth": 8})),
-    reach=["end", "phantom_key", "key_removed", "live_key_without_valid_output"],
-    bounds="as C10_map, and an absent key may also be created without a value (instance exists, its input is invalid until the first value) or be added and "
-           "removed within one cycle (netted: no instance); " + _FUNCS,
-    outside=_OUT,
     )
 
 META = dict(
